@@ -6,14 +6,14 @@ namespace Goml.GoComp
 open Goml Goml.Go Goml.GoCompile Goml.GoFrag
 open Goml.Sem (Val World Res Fail)
 open Goml.C01 (toG)
-open Goml.Dce (keys allDecls lookup_cons_self lookup_cons_ne lookup_none_of_not_key key_of_lookup_some
+open Goml.Dce (keys lookup_cons_self lookup_cons_ne lookup_none_of_not_key key_of_lookup_some
   keys_update lookup_update_ne lookup_update_self update_not_key)
 
 attribute [local irreducible] Goml.GoCompile.vn Goml.GoCompile.gid Goml.GoCompile.rn
 
 theorem stepL {env : Env} {file : AFile} {G : List String} {P : Prog} {F : GFile} {n : Nat}
     (ha : SimA env file G P F n) (hL : SimL env file G P F n) : SimL env file G P F (n + 1) := by
-  intro cv st c b Γ ρ w gρ gw Bad hfc hcb hfb hbu hrel hw hinv htgt hus hcal
+  intro cv st c b Γ K ρ w gρ gw Bad hfc hcb hfb hbu hrel hkrel hw hinv htgt hus hcal
   obtain ⟨htk, htne⟩ := htgt
   have hcalc : ∀ x, x ∈ calleesA c → vn x ∈ Bad := fun x hx => hcal x (List.mem_append_left _ hx)
   have hcalb : ∀ x, x ∈ calleesA b → vn x ∈ Bad := fun x hx => hcal x (List.mem_append_right _ hx)
@@ -27,7 +27,7 @@ theorem stepL {env : Env} {file : AFile} {G : List String} {P : Prog} {F : GFile
   generalize hB : (compileA env .effect st2 b).1 = B at *
   have hinvA : GInv Bad A gρ := hinv.left
   rw [Sem.eval]
-  have hAsim := ha (.assign cv) st c Γ ρ w gρ gw Bad hfc hrel hw (hA ▸ hinvA) ⟨htk, htne⟩ hus hcalc
+  have hAsim := ha (.assign cv) st c Γ K ρ w gρ gw Bad hfc hrel hkrel hw (hA ▸ hinvA) ⟨htk, htne⟩ hus hcalc
   rw [hA, hcb] at hAsim
   revert hAsim
   cases hres : Sem.eval n P ρ w c.toExpr with
@@ -79,7 +79,7 @@ theorem stepL {env : Env} {file : AFile} {G : List String} {P : Prog} {F : GFile
         have h3 := GInv.right (a := [GStmt.ite (.un .not .bool (.var (gid cv) .bool)) [.brk] none]) (D := [])
           (U := D1 ++ updateG gρ (gid cv) (.bool true)) h2 rfl (fun y hy => by cases hy)
         simpa using h3
-      have hBsim := ha .effect st2 b Γ ρ w1 (D1 ++ updateG gρ (gid cv) (.bool true)) gw1 Bad hfb hrel1 h5 (hB ▸ hinvB) hbu hus hcalb
+      have hBsim := ha .effect st2 b Γ K ρ w1 (D1 ++ updateG gρ (gid cv) (.bool true)) gw1 Bad hfb hrel1 hkrel h5 (hB ▸ hinvB) hbu hus hcalb
       rw [hB] at hBsim
       revert hBsim
       cases hresb : Sem.eval n P ρ w1 b.toExpr with
@@ -103,7 +103,7 @@ theorem stepL {env : Env} {file : AFile} {G : List String} {P : Prog} {F : GFile
           lookup_update_ne _ (fun e => htne y ty hy e.symm) _)
         have hinv' : GInv Bad (A ++ (GStmt.ite (.un .not .bool (.var (gid cv) .bool)) [.brk] none :: B))
             (updateG gρ (gid cv) (.bool true)) := hinv.keys_eq (keys_update _ _ _)
-        have hnext := hL cv st c b Γ ρ w2 (updateG gρ (gid cv) (.bool true)) gw2 Bad hfc hcb hfb hbu hrel' g5
+        have hnext := hL cv st c b Γ K ρ w2 (updateG gρ (gid cv) (.bool true)) gw2 Bad hfc hcb hfb hbu hrel' hkrel g5
           (by rw [hbody]; exact hinv') ⟨by rw [keys_update]; exact htk, htne⟩ hus hcal
         rw [hbody] at hnext
         revert hnext
